@@ -4,7 +4,7 @@ TAGS = {1: "Spawn", 2: "Handle", 3: "Drop", 4: "Upg", 5: "Op", 6: "Ret", 7: "Deq
         19: "ClientEnd", 20: "Foreign", 21: "Ctx", 22: "TimerReg", 23: "Tick", 24: "Exec", 25: "Yield", 26: "StreamEnd",
         27: "ItemBegin", 28: "ItemEnd", 29: "JoinNew", 30: "JoinDrop", 31: "ChildAdd", 32: "Bcast", 33: "Reg",
         34: "Subscribe", 35: "Deliver", 36: "PubCopy", 37: "Release", 38: "Query", 39: "Crash", 40: "StreamClose",
-        41: "BcastBegin", 42: "TimerSleep", 43: "Probe", 44: "Broker", 45: "TopicOp", 46: "TopicRet", 47: "BcastEnd", 48: "Identity"}
+        41: "BcastBegin", 42: "TimerSleep", 43: "Probe", 44: "Broker", 45: "TopicOp", 46: "TopicRet", 47: "BcastEnd", 48: "Identity", 49: "Abandon"}
 HK = ["Addr", "Owning", "Sender", "Caller", "WAddr", "WSender", "WCaller"]
 OPK = ["send", "call", "ping", "stop", "restart", "halt", "await", "await_ref", "join", "consume", "force", "publish", "unsubscribe"]
 RK = ["Ok", "OkV", "Err", "None", "SomeV", "Bool", "Skip", "OptBool", "Inst"]
